@@ -2,7 +2,7 @@
     unit, list, prod, sumbool, sumor map to OCaml's; nat, positive, N, Z stay
     the extracted inductive types.  No Extract Constant. *)
 From Coq Require Import Extraction ExtrOcamlBasic.
-From Meddly Require Import Model.DD Model.EvDD Model.RefStore Model.Counter Model.Build Model.Scalar Model.Bits Gen.Terminal Model.MemSpec Model.Audit Model.Reach Model.Enum Model.Reorder Model.Lifecycle.
+From Meddly Require Import Model.DD Model.EvDD Model.RefStore Model.OptStore Model.Counter Model.Build Model.Scalar Model.Bits Gen.Terminal Model.MemSpec Model.Audit Model.Reach Model.Enum Model.Reorder Model.Lifecycle.
 Extraction Language OCaml.
 Extraction "model.ml"
   DD.dd_eqb DD.mk DD.unpack DD.evalS DD.evalL DD.eval DD.reducedb DD.of_fun
@@ -12,7 +12,7 @@ Extraction "model.ml"
   Terminal.getIntegerHandle Terminal.getRealHandle Terminal.setFromHandle_INTEGER
   Terminal.setFromHandle_REAL Terminal.setFromHandle_BOOLEAN Terminal.intMin Terminal.intMax
   MemSpec.accept MemSpec.fl_init MemSpec.fl_request MemSpec.fl_recycle
-  Audit.audit Audit.dom_ok Counter.ctr_init Counter.cstep RefStore.st_init RefStore.sstep RefStore.observe RefStore.lookup_name EvDD.ev_of_fun EvDD.ev_eval EvDD.ev_reduced
+  Audit.audit Audit.dom_ok Counter.ctr_init Counter.cstep RefStore.st_init RefStore.sstep RefStore.observe RefStore.lookup_name OptStore.os_init OptStore.ostep OptStore.oobserve OptStore.handle_free EvDD.ev_of_fun EvDD.ev_eval EvDD.ev_reduced
   Reach.dpost Reach.dpre Reach.dist_bfs Reach.dmin
   Reach.sat_dd_fast Reach.reach_fs_dd_fast Reach.reach_dd_fast Reach.rreach_dd_fast Reach.post_dd Reach.pre_dd Reach.reach_dd Reach.rreach_dd Reach.vm_dd Reach.mv_dd Reach.rel_sz Reach.cross_dd
   Enum.enum Enum.cardinality Enum.node_count Enum.edge_count Enum.members Enum.index_table Enum.get_element
